@@ -218,6 +218,75 @@ def _redecl_one(item):
     return item, "pkg", probs
 
 
+SLIPS = ["alias_signal", "alias_instance", "call_returns_same", "rename_signal", "rename_instance", "rename_to_implicit", "stale_slice",
+         "width_zero", "width_shrunk_under_slice", "ext_dup_ports", "alias_port", "alias_in_child"]
+
+
+def _slip_one(kind):
+    """Design programs with a slip of the pen after which object names and namespace keys (or cached geometry) disagree:
+    whatever to_proto returns must still be well formed - raising is fine."""
+    import hdl21 as h
+
+    try:
+        inv = h.Module(name="SInv")
+        inv.i, inv.z = h.Input(), h.Output()
+        wide = h.Module(name="SWide")
+        wide.a = h.Input(width=2)
+        m = h.Module(name="SlipTop")
+        m.x, m.y, m.w = h.Signal(), h.Signal(), h.Signal()
+        m.bus = h.Signal(width=8)
+        m.i1 = inv(i=m.x, z=m.y)
+        top = m
+        if kind == "alias_signal":
+            m.q = m.w  # one Signal under two names
+            m.i2 = inv(i=m.y, z=m.q)
+        elif kind == "alias_port":
+            m.pp = h.Port()
+            m.qq = m.pp
+            m.i2 = inv(i=m.pp, z=m.w)
+        elif kind == "alias_instance":
+            m.i2 = m.i1  # one Instance under two names
+        elif kind == "call_returns_same":
+            m.i2 = m.i1(z=m.w)  # connect-by-call returns the same Instance
+        elif kind == "rename_signal":
+            m.w.name = "y"  # renamed after it was added
+            m.i2 = inv(i=m.y, z=m.w)
+        elif kind == "rename_instance":
+            m.i2 = inv(i=m.y, z=m.w)
+            m.i2.name = "i1"
+        elif kind == "rename_to_implicit":
+            m.w.name = "i1_z"  # the name the elaborator will pick for an implicit net
+            m.i1.disconnect("z")
+            m.i2 = inv(i=m.i1.z, z=m.w)
+        elif kind == "stale_slice":
+            sl = m.bus[5:7]
+            sl.width  # bounds are worked out here ...
+            m.bus.width = 4  # ... and the parent shrinks afterwards
+            m.u = wide(a=sl)
+        elif kind == "width_zero":
+            m.w.width = 0
+            m.i2 = inv(i=m.y, z=m.w)
+        elif kind == "width_shrunk_under_slice":
+            m.u = wide(a=m.bus[6:8])
+            m.bus.width = 6
+        elif kind == "ext_dup_ports":
+            e = h.ExternalModule(name="SDup", port_list=[h.Inout(name="a"), h.Inout(name="a")], paramtype=dict)
+            m.e = e()(a=m.w)
+        elif kind == "alias_in_child":
+            c = h.Module(name="SChild")
+            c.p, c.q = h.Input(), h.Output()
+            c.n = h.Signal()
+            c.n2 = c.n
+            c.j1 = inv(i=c.p, z=c.n)
+            c.j2 = inv(i=c.n2, z=c.q)
+            m.c = c(p=m.y, q=m.w)
+        pkg = h.to_proto(top)
+    except Exception as e:
+        return kind, "raised:" + short_exc(e), None
+    probs = wfmod.wf(pkg) or wfmod.accepts(pkg)
+    return kind, "pkg", probs
+
+
 def _mutant_one(item):
     """Single-fault mutants of family designs (the C02 corpus): whatever to_proto returns for them must still be well formed."""
     import hdl21 as h
@@ -343,6 +412,14 @@ def run(ctx):
         ctx.outcome(status.split(":")[0] + ":redecl:" + item[1])
         if status == "pkg" and probs:
             ctx.violation(dict(corpus="redeclared", first=item[0], then=item[1], problem=classify(probs[0])), dict(redecl=list(item)), probs[:5])
+    # (c3c) slips after which names / cached geometry disagree with the namespace
+    for kind in SLIPS:
+        k_, status, probs = _slip_one(kind)
+        ctx.count(states=1, transitions=2, traces_validated_against_impl=1)
+        ctx.fam("program_slips", **{("pkg" if status == "pkg" else "raised"): 1})
+        ctx.outcome(status.split(":")[0] + ":slip:" + kind)
+        if status == "pkg" and probs:
+            ctx.violation(dict(corpus="slips", slip=kind, problem=classify(probs[0])), dict(slip=kind), probs[:5])
     # (c4) single-fault mutants: ill-formed designs normally raise; anything returned must be well formed
     mitems = []
     for fname, stride in (("f1_expr", 60), ("f2_portrefs", 900), ("f4_bundles", 12), ("f5_arrays", 40), ("f7_hier", 400)):
@@ -391,6 +468,8 @@ def replay(body):
     elif "example" in c:
         _, _, out = _example_one(c["example"])
         probs = [p for (_k, _n, ps) in out for p in ps]
+    elif "slip" in c:
+        probs = _slip_one(c["slip"])[2]
     elif "redecl" in c:
         probs = _redecl_one(tuple(c["redecl"]))[2]
     elif "extpair" in c:
